@@ -14,9 +14,20 @@ use crate::output::Digits;
 
 use super::BigInt;
 
-#[derive(Clone, Debug, PartialEq, Eq, PartialOrd, Ord, Serialize, Deserialize, Hash)]
+#[derive(Clone, Debug, PartialEq, Eq, PartialOrd, Ord, Serialize, Deserialize)]
 pub struct BigRat {
     inner: NumRat,
+}
+
+// The implementation in num-rational recurses once per term of the
+// continued fraction, which overflows the stack for numbers with tens
+// of thousands of digits. Equal values have the same reduced form.
+impl std::hash::Hash for BigRat {
+    fn hash<H: std::hash::Hasher>(&self, state: &mut H) {
+        let reduced = self.inner.reduced();
+        reduced.numer().hash(state);
+        reduced.denom().hash(state);
+    }
 }
 
 impl BigRat {
